@@ -19,7 +19,7 @@ def scenarios(tier):
              ("SCRIPT", "file", "afterPrintDone"), ("SCRIPT", "gcode", "afterPrintPaused"),
              ("SCRIPT", "gcode", "afterPrintCancelled")]
     ends = [("EV", "PRINT_DONE"), ("EV", "PRINT_CANCELLED"), ("NEWPRINT",)]
-    cfg = dict(prop="C15", monitors=("c15",), regions=["R"], emax=1, exit="M400\n", key_depth=False)
+    cfg = dict(prop="C15", monitors=("c15", "c06"), c06_scope="script", regions=["R"], emax=1, exit="M400\n", key_depth=False)
     cap = 150000 if q else 3000000
     if q:
         out = [Scenario("c15-programs", World, cfg, program + hooks[:1] + ends, max_states=cap,
